@@ -59,11 +59,14 @@ func (f *Subseq) Call(s *slip.Scope, args slip.List, depth int) (result slip.Obj
 		ra := []rune(ta)
 		result = slip.String(ra[start:end])
 	case *slip.Vector:
-		elements := ta.AsList()[start:end]
+		// A new vector that does not share the elements with the argument.
+		elements := make(slip.List, end-start)
+		copy(elements, ta.AsList()[start:end])
 		result = slip.NewVector(len(elements), ta.ElementType(), nil, elements, ta.Adjustable())
 	case slip.Octets:
-		ba := []byte(ta)
-		result = slip.Octets(ba[start:end])
+		ba := make([]byte, end-start)
+		copy(ba, ta[start:end])
+		result = slip.Octets(ba)
 	case *slip.BitVector:
 		cnt := end - start
 		bv := slip.BitVector{
